@@ -268,3 +268,9 @@ package p2pke
 //@     pure
 //@   fnspec Signer:
 //@     pure
+
+// ---- the InitHello body is parsed without panicking, whatever its trailing length field says ------
+//@ func parseInitHello
+//@   noframe
+//@   ensures [short] len(body) < 2 ==> ret1 != nil
+//@   ensures [badlen] len(body) >= 2 && body[len(body)-2]*256 + body[len(body)-1] > len(body) - 2 ==> ret1 != nil
